@@ -39,6 +39,45 @@ func (d *extractDeferFetches) Process(deferPlan *plan.DeferResponsePlan) {
 		}
 		deferPlan.Response.Defers = append(deferPlan.Response.Defers, deferResponse)
 	}
+
+	d.dropDescriptorsWithoutFetchGroup(deferPlan.Response)
+}
+
+// dropDescriptorsWithoutFetchGroup removes the descriptors of defers that ended up without a
+// fetch group. The descriptors are collected before planning rewrites abstract selections;
+// the rewrite can merge every field of a defer into another payload, leaving it without
+// fields and fetches. Such a defer is never executed, so announcing it as pending would
+// leave it uncompleted and the stream without a final frame. Its children are attached to
+// its nearest remaining ancestor.
+func (d *extractDeferFetches) dropDescriptorsWithoutFetchGroup(response *resolve.GraphQLDeferResponse) {
+	if len(response.DeferDescriptors) == 0 {
+		return
+	}
+	hasGroup := make(map[int]struct{}, len(response.Defers))
+	for _, g := range response.Defers {
+		hasGroup[g.DeferID] = struct{}{}
+	}
+	kept := make(map[int]resolve.DeferDescriptor, len(response.DeferDescriptors))
+	for id, desc := range response.DeferDescriptors {
+		if _, ok := hasGroup[id]; !ok {
+			continue
+		}
+		for desc.ParentID != 0 {
+			if _, ok := hasGroup[desc.ParentID]; ok {
+				break
+			}
+			parent, ok := response.DeferDescriptors[desc.ParentID]
+			if !ok {
+				desc.ParentID = 0
+				break
+			}
+			desc.ParentID = parent.ParentID
+		}
+		kept[id] = desc
+	}
+	if len(kept) != len(response.DeferDescriptors) {
+		response.DeferDescriptors = kept
+	}
 }
 
 func (d *extractDeferFetches) fetchGroups(deferPlan *plan.DeferResponsePlan) (root []*resolve.FetchTreeNode, fetchGroups map[int][]*resolve.FetchTreeNode) {
